@@ -121,6 +121,9 @@ def switch_cond(body, prog, b):
     t = body.term(b)
     l = op_local(t["d"])
     if l is None:
+        pl = op_place(t["d"])
+        if pl is not None:
+            return Cond("place", pl)
         return Cond("unknown", None)
     v = resolve_value(body, l)
     if v[0] == "call":
@@ -144,6 +147,8 @@ def switch_cond(body, prog, b):
             return Cond("binop", rv)
     if v[0] == "local":
         return Cond("local", v[1])
+    if v[0] == "arg":
+        return Cond("arg", v[1])
     return Cond("unknown", v)
 
 
@@ -213,7 +218,7 @@ def describe_result(prog, ret):
     if ret[0] == "call":
         t = ret[1]
         strs = [const_str(a) for a in t["args"] if const_str(a) is not None]
-        return ("call", t["f"].get("fn"), strs)
+        return ("call", t["f"].get("fn"), tuple(strs))
     return ("other", ret)
 
 
@@ -338,3 +343,78 @@ def const_arrays_in(body, elem_ty_pred):
             for a in t["args"]:
                 visit(a)
     return found
+
+
+def branch_truth(taken):
+    """For a switch on a bool: which truth value does this edge represent?"""
+    if isinstance(taken, tuple):      # else edge; arms listed are excluded
+        return 0 in taken[1]
+    return taken != 0
+
+
+def eval_char_pred(prog, fn, ch, depth=0):
+    """Evaluate a pure `fn(char) -> bool` / `fn(&char) -> bool` predicate on a concrete character by
+    walking the single feasible path of its MIR. Returns True/False or None when not evaluable."""
+    from . import ref
+    if fn in ref.CHAR_PREDICATES:
+        return ref.CHAR_PREDICATES[fn](ch)
+    body = prog.body(fn)
+    if body is None or depth > 4:
+        return None
+    results = set()
+    for p in enum_paths(body, prog, limit=2000):
+        if p.end != "return":
+            return None
+        feasible = True
+        for e in p.events:
+            if e[0] != "branch":
+                continue
+            cond, taken = e[2], e[3]
+            if cond.kind == "call":
+                term = cond.data[1]
+                callee = term["f"].get("fn")
+                v = eval_char_pred(prog, callee, ch, depth + 1)
+                if v is None:
+                    return None
+                if branch_truth(taken) != v:
+                    feasible = False
+            elif cond.kind in ("arg", "place", "local"):
+                # switch on the character value itself
+                if isinstance(taken, tuple):
+                    if ord(ch) in taken[1]:
+                        feasible = False
+                elif taken != ord(ch):
+                    feasible = False
+            elif cond.kind == "binop":
+                rv = cond.data
+                c = op_const(rv["b"]) or op_const(rv["a"])
+                if c is None or "int" not in c:
+                    return None
+                eq = (ord(ch) == c["int"])
+                val = eq if rv["binop"] == "Eq" else (not eq) if rv["binop"] == "Ne" else None
+                if val is None:
+                    return None
+                if branch_truth(taken) != val:
+                    feasible = False
+            else:
+                return None
+            if not feasible:
+                break
+        if feasible:
+            r = describe_result(prog, p.ret)
+            if r[0] == "other" and isinstance(r[1], dict) and r[1].get("binop") in ("Eq", "Ne"):
+                rv = r[1]
+                c = op_const(rv["b"]) or op_const(rv["a"])
+                if c is None or "int" not in c:
+                    return None
+                eq = (ord(ch) == c["int"])
+                results.add("true" if (eq if rv["binop"] == "Eq" else not eq) else "false")
+                continue
+            if r[0] != "const":
+                return None
+            results.add(r[1])
+    if results == {"true"}:
+        return True
+    if results == {"false"}:
+        return False
+    return None
